@@ -16,7 +16,7 @@ import (
 
 func init() {
 	register(&Prop{ID: "C15", Run: runC15, MinNontrivial: 500,
-		Rule:        "cases = every builder (AuthnRequest document/string/NoSig, LogoutRequest, LogoutResponse, signed and unsigned) over configuration and argument strings from the value classes, all boolean/optional combinations, 0-4 authentication contexts, clocks in fixed zones -12h..+14h with sub-second parts; oracle: serialise, re-parse with etree, compare the namespace-resolved tree (element names, exact attribute sets and values, child order, text) with the tree expected from the configuration; ID checked by pattern; non-trivial = a document was produced; distinct by parameter tuple; SigningContext().Prefix changed by the application",
+		Rule:        "cases = every builder (AuthnRequest document/string/NoSig, LogoutRequest, LogoutResponse, signed and unsigned) over configuration and argument strings from the value classes, all boolean/optional combinations, 0-4 authentication contexts, clocks in fixed zones -12h..+14h with sub-second parts; oracle: serialise, re-parse with etree, compare the namespace-resolved tree (element names, exact attribute sets and values, child order, text) with the tree expected from the configuration; ID checked by pattern; non-trivial = a document was produced; distinct by parameter tuple; SigningContext().Prefix changed by the application; an earlier unsigned document re-serialised after every later build",
 		Assumptions: []string{"the recipient is modelled as a conforming XML processor: attribute-value normalisation (literal TAB/LF/CR -> space) is applied to the serialised text before Go's decoder, and a literal \"]]>\" inside attribute values (legal XML that Go refuses) is tolerated"}})
 }
 
